@@ -55,6 +55,12 @@ def main(argv):
             res.inconclusive.append(str(e))
         except core.HarnessDied as e:
             res.inconclusive.append("harness process died unexpectedly: %s %s" % (e, e.stderr[-300:]))
+        except core.OpPanicked as e:
+            if e.in_library():
+                res.add("unlisted:panic", {"op": e.op, "args": e.opargs, "panic": e.msg, "loc": e.loc},
+                        {"op": e.op, "args": e.opargs, "payload_hex": e.payload.hex()})
+            else:
+                res.inconclusive.append("harness defect: %s" % e)
         except Exception as e:  # a defect of the machinery itself is never a verdict on the code
             import traceback
             traceback.print_exc()
